@@ -1243,6 +1243,32 @@ class EEA:
                 return d.obj
         return None
 
+    def _exc_class_in(self, m, expr: ast.expr) -> str | None:
+        d = self.prog.resolve_expr(m, expr)
+        if d is not None:
+            if d.kind == "class":
+                return d.obj.fq
+            if d.kind == "external":
+                return d.obj
+        return None
+
+    def _handler_type_elts(self, m, t: ast.expr, depth: int) -> list:
+        """(module, class expression) pairs an `except <t>` clause names: a tuple display, a module constant that is a
+        tuple / list / set of classes, the keys of a constant dict, `tuple(<one of those>)`."""
+        if depth > 3:
+            return [(m, t)]
+        if isinstance(t, (ast.Tuple, ast.List, ast.Set)):
+            return [p_ for x in t.elts for p_ in self._handler_type_elts(m, x, depth + 1)]
+        if isinstance(t, ast.Dict) and all(k is not None for k in t.keys):
+            return [p_ for x in t.keys for p_ in self._handler_type_elts(m, x, depth + 1)]
+        if isinstance(t, ast.Call) and isinstance(t.func, ast.Name) and t.func.id in ("tuple", "list", "frozenset", "set") and len(t.args) == 1 and not t.keywords:
+            return self._handler_type_elts(m, t.args[0], depth + 1)
+        if isinstance(t, ast.Name):
+            d = self.prog.resolve_name(self.prog.origin(m, t), t.id)
+            if d is not None and d.kind == "const" and isinstance(d.obj, (ast.Tuple, ast.List, ast.Set, ast.Dict, ast.Call)):
+                return self._handler_type_elts(d.module, d.obj, depth + 1)
+        return [(m, t)]
+
     def try_stmt(self, s: ast.Try, st: St):
         fr = st.fr
         eb, out_body = self.block(s.body, st)
@@ -1256,9 +1282,8 @@ class EEA:
             if h.type is None:
                 classes = ["builtins.BaseException"]
             else:
-                elts = h.type.elts if isinstance(h.type, ast.Tuple) else [h.type]
-                for x in elts:
-                    fn = self.exc_class_of(x, fr)
+                for xm, x in self._handler_type_elts(fr.module, h.type, 0):
+                    fn = self.exc_class_of(x, Frame(fr.callee, fr.V)) if xm is fr.module else self._exc_class_in(xm, x)
                     if fn is None:
                         raise AnalysisError(f"cannot resolve handler class {norm(x)} at {fr.module.relpath}:{h.lineno}")
                     classes.append(fn)
@@ -1327,6 +1352,29 @@ class EEA:
         x = s.exc
         if isinstance(x, ast.Name) and st.handler_var is not None and x.id == st.handler_var and st.caught is not None:
             return self.merge(e, st.caught)
+        if isinstance(x, ast.Call) and isinstance(x.func, ast.Subscript) and isinstance(x.func.value, ast.Name):
+            # `raise TABLE[key](args)`: a module-level table of exception classes / factories (lambdas, functions)
+            d = self.prog.resolve_name(self.prog.origin(fr.module, x.func.value), x.func.value.id)
+            if d is not None and d.kind == "const" and isinstance(d.obj, ast.Dict):
+                e = self.merge(e, self.expr(x.func, st))  # the lookup itself (KeyError for a key the table lacks)
+                for a in x.args:
+                    e = self.merge(e, self.expr(a, st))
+                classes: set = set()
+                for v in d.obj.values:
+                    body = v.body if isinstance(v, ast.Lambda) else v
+                    tgt = body.func if isinstance(body, ast.Call) else body
+                    c = self._exc_class_in(d.module, tgt) if isinstance(tgt, (ast.Name, ast.Attribute)) else None
+                    dfn = self.prog.lookup_fullname(c) if c and c.startswith(PKG) else None
+                    if dfn is not None and dfn.kind == "func":
+                        classes |= self._factory_classes(dfn.obj, 0)
+                    elif c and self._is_exception_class(c):
+                        classes.add(c)
+                    else:
+                        raise AnalysisError(f"cannot tell which exception an entry of {x.func.value.id} builds (`{norm(v)[:50]}`) at {fr.module.relpath}:{s.lineno}")
+                for c in sorted(classes):
+                    self.obligations += 1
+                    e = self.merge(e, self._one(c, self.site(fr, s, "raise", f"raise {norm(x.func)}(...) -> {short_exc(c)}"), fr))
+                return e
         if isinstance(x, ast.Call):
             e = self.merge(e, self.expr(x, st, skip_self_call=True))
             for a in x.args:
